@@ -83,6 +83,7 @@ SCRIPTS = {
     'crashing-script-name': "from pedal import *\nundefined_helper(5)\n",
     'override-parent': "from pedal import *\nfrom pedal.sandbox.feedbacks import runtime_error\nruntime_error.override(title='Oops', message_template='Something broke: {exception_name}')\nassert_equal(call('add', 1, 2), 3)\n",
     'override-child': "from pedal import *\nfrom pedal.sandbox.feedbacks import name_error, index_error\nname_error.override(title='Unknown name!')\nindex_error.override(title='Bad index!', muted=False)\nassert_equal(call('add', 1, 2), 3)\n",
+    'override-child-zero': "from pedal import *\nfrom pedal.sandbox.feedbacks import zero_division_error\nzero_division_error.override(message_template='Do not divide by zero.')\nassert_equal(call('add', 1, 2), 3)\n",
     'override-child-template': "from pedal import *\nfrom pedal.sandbox.feedbacks import name_error, index_error, type_error\nname_error.override(message_template='Name trouble: {exception_name}')\nindex_error.override(message_template='Index trouble', justification='reworded')\ntype_error.override(muted=False, message_template='Type trouble')\nassert_equal(call('add', 1, 2), 3)\n",
     'override-parent-then-child': "from pedal import *\nfrom pedal.sandbox.feedbacks import runtime_error, name_error, index_error\nruntime_error.override(title='Parent')\nname_error.override(title='Child name')\nindex_error.override(title='Child index')\n",
     'override-twice': "from pedal import *\nfrom pedal.source.feedbacks import syntax_error\nsyntax_error.override(message_template='first')\nsyntax_error.override(message_template='second {lineno}')\n",
@@ -143,6 +144,8 @@ DESIGNED_PAIRS = [
     [('override-tifa', 'unused-var'), ('override-parent', 'name-error'), ('static-checks', 'unused-var')],
     [('override-child-template', 'name-error'), ('override-parent', 'name-error'), ('override-parent', 'crash'), ('override-parent', 'type-error')],
     [('override-child-template', 'crash'), ('plain-assert', 'crash'), ('override-parent', 'crash')],
+    # (a failure that TIFA does not foresee, so that the run-time feedback is what the learner gets)
+    [('override-child-zero', 'crash'), ('override-parent', 'crash'), ('plain-assert', 'crash'), ('override-child-zero', 'crash')],
     # the modules pedal itself patches by name or by object are blocked by the script
     [('block-sys-and-time', 'good'), ('plain-assert', 'good'), ('plain-assert', 'exit')],
     [('block-sys-and-time', 'exit'), ('inputs-and-output', 'reads-input')],
@@ -156,7 +159,7 @@ def designed_histories(all_names):
     for h in DESIGNED_PAIRS:
         names = []
         for script, sub in h:
-            hit = [n for n in all_names if n.startswith('%s@%s@' % (script, sub))]
+            hit = [n for n in all_names if n.startswith('%s@%s@' % (script, sub)) and n.endswith('#d')]
             if not hit:
                 break
             names.append(hit[0])
@@ -173,7 +176,7 @@ def library():
                'gradescope-maximum': ['wrong', 'good'], 'gradescope-plain': ['wrong', 'good'], 'gradescope-maximum-then-crash': ['good', 'wrong'],
                'pools-override-subclass': ['wrong', 'good'], 'pools-plain-user': ['wrong', 'good'],
                'override-twice': ['syntax', 'good'], 'override-tifa': ['unused-var', 'name-error'],
-               'override-parent': ['crash', 'name-error'], 'override-child': ['name-error', 'crash'],
+               'override-parent': ['crash', 'name-error'], 'override-child-zero': ['crash', 'good'], 'override-child': ['name-error', 'crash'],
                'override-parent-then-child': ['name-error', 'crash', 'good'], 'suppress-runtime': ['crash', 'unused-var'],
                'suppress-label': ['syntax', 'wrong'], 'custom-feedback-class': ['blank', 'good'],
                'tracing': ['defines-class', 'good'], 'cait-patterns': ['good', 'prints-a-lot'],
@@ -192,10 +195,12 @@ def library():
         out.append({'name': 'plain-assert@%s@%s#v' % (sub, ENVS[j % 2]), 'script': 'plain-assert', 'submission': sub, 'env': ENVS[j % 2]})
         out.append({'name': 'static-checks@%s@standard#v' % sub, 'script': 'static-checks', 'submission': sub, 'env': 'standard'})
     # the gradings the designed histories name
+    # (always under the same environment: what a designed history is after must not depend on which environment the rotation above
+    # happens to give that script)
     for h in DESIGNED_PAIRS:
         for script, sub in h:
-            if not any(g['script'] == script and g['submission'] == sub for g in out):
-                out.append({'name': '%s@%s@standard#d' % (script, sub), 'script': script, 'submission': sub, 'env': 'standard'})
+            env = 'gradescope' if script.startswith('gradescope-') else 'standard'
+            out.append({'name': '%s@%s@%s#d' % (script, sub, env), 'script': script, 'submission': sub, 'env': env})
     seen = set()
     uniq = []
     for g in out:
